@@ -83,7 +83,15 @@ class Ref:
                 kw[a] = self.ev(a, env, period, memo)
             else:
                 kw[a] = self.params[name][a]
-        out = np.asarray(f(**kw))
+        if getattr(f, "_scalar_only", False):
+            # legal user functions need not be broadcast-safe: evaluate element by element
+            names = list(kw)
+            arrs = np.broadcast_arrays(*[np.asarray(kw[k]) for k in names])
+            flat = [a.reshape(-1) for a in arrs]
+            vals = [np.asarray(f(**{k: flat[j][i] for j, k in enumerate(names)})) for i in range(flat[0].size)]
+            out = np.asarray(vals).reshape(arrs[0].shape) if names else np.asarray(f())
+        else:
+            out = np.asarray(f(**kw))
         memo[name] = out
         return out
 
